@@ -1,6 +1,7 @@
 import Driver.OpsC15
 import TongoModel.WalletMsg
 import TongoModel.WalletInt
+import TongoModel.WalletSendMsg
 /-! Line handlers for property C14 (wallet message bodies, signatures, decoding). -/
 namespace Driver
 open Tongo Tongo.Wallet Tongo.CellFmt
@@ -175,17 +176,14 @@ def opsC14 : List (String × Handler) := [
       | some ver, some pk, some wc, some sub, some net, some code, some seqno, some vu, some rnd =>
         match Version.ofGoIndex? ver, hexArg sig, parseMsgs msgs with
         | some v, some sig, some msgs =>
-          let o := walletOpts wc sub net
-          if msgs.length > maxMessages v then "err sent=0"
-          else
-            let r : Outcome Cell := do
-              let self ← address sha256 code v pk o
-              let body ← createSignedBody sha256 (fixedSign sig) [] v (bodyIds v o) opSignedExternal seqno vu rnd msgs
-              extMessage self body (if init == "1" then some (walletStateInit code v pk o) else none)
-            match r with
-            | .ok m => s!"ok sent=1 {cellOut m}"
-            | .err _ => "err sent=0"
-            | .panic _ => "panic sent=0"
+          -- the message-level send model (TongoModel/WalletSendMsg.lean): guard, build, SendMessage (no error, no waiting)
+          let cfg : SendCfg := { H := sha256, sign := fixedSign sig, sk := [], pk := pk, code := code, v := v, o := walletOpts wc sub net }
+          let sc : Script := { acct := .ok .none, sendErr := false, polls := [] }
+          let r := rawSendV2Msg cfg (fun _ _ _ => false) seqno vu rnd msgs (init == "1") sc 0
+          let tag := match r.outcome with | .ok _ => "ok" | .err _ => "err" | .panic _ => "panic"
+          match r.sent with
+          | some m => s!"{tag} sent=1 {cellOut m}"
+          | none => s!"{tag} sent=0"
         | _, _, _ => "bad-op"
       | _, _, _, _, _, _, _, _, _ => "bad-op"
     | _ => "bad-op"),
